@@ -1,5 +1,557 @@
 package main
 
-func cmdCheck(args []string)    {}
-func cmdBaseline(args []string) {}
-func cmdReplay(args []string)   {}
+import (
+	"crypto/sha256"
+	"encoding/json"
+	"flag"
+	"fmt"
+	"os"
+	"path/filepath"
+	"sort"
+	"strconv"
+	"strings"
+	"sync"
+	"time"
+)
+
+type Baseline struct {
+	Property string         `json:"property"`
+	Groups   map[string]int `json:"groups"` // group -> number of discharged obligations
+	Names    []string       `json:"names"`
+	Funcs    []string       `json:"functions_under_contract"`
+}
+
+type KnownFinding struct {
+	Property   string `json:"property"`
+	Obligation string `json:"obligation"` // exact obligation name, or a group (func/class/anchor)
+	Status     string `json:"status"`     // known | fixed
+	Commit     string `json:"commit,omitempty"`
+	What       string `json:"what"`
+	Witness    string `json:"witness,omitempty"`
+}
+
+func loadKnown() []KnownFinding {
+	var out struct {
+		Findings []KnownFinding `json:"findings"`
+	}
+	data, err := os.ReadFile(filepath.Join(verifDir, "known_findings.json"))
+	if err != nil {
+		return nil
+	}
+	if err := json.Unmarshal(data, &out); err != nil {
+		fmt.Fprintln(os.Stderr, "govc: known_findings.json:", err)
+		os.Exit(2)
+	}
+	return out.Findings
+}
+
+func loadBaseline(prop string) *Baseline {
+	data, err := os.ReadFile(filepath.Join(verifDir, "baseline", prop+".json"))
+	if err != nil {
+		return nil
+	}
+	var b Baseline
+	if err := json.Unmarshal(data, &b); err != nil {
+		fmt.Fprintln(os.Stderr, "govc: baseline:", err)
+		os.Exit(2)
+	}
+	return &b
+}
+
+type encResult struct {
+	key string
+	e   *Enc
+}
+
+// encodeAll encodes every function of the anko packages (in parallel) plus the lemmas.
+func encodeAll(P *Prog) []*Enc {
+	P.mutableGlobal("") // force the once
+	var keys []string
+	for _, k := range P.FuncKeys {
+		if _, skip := skipFuncs[k]; skip {
+			continue
+		}
+		if c := P.Spec.Contracts[k]; c != nil && c.Trusted {
+			continue // contract assumed, body not checked (listed in the evidence as a contract pragma)
+		}
+		keys = append(keys, k)
+	}
+	res := make([]*Enc, len(keys))
+	var wg sync.WaitGroup
+	sem := make(chan struct{}, 16)
+	for i, k := range keys {
+		wg.Add(1)
+		go func(i int, k string) {
+			defer wg.Done()
+			sem <- struct{}{}
+			defer func() { <-sem }()
+			defer func() {
+				if r := recover(); r != nil {
+					e := newEnc(P, P.Funcs[k])
+					e.unsupported = fmt.Sprintf("engine panic: %v", r)
+					res[i] = e
+				}
+			}()
+			res[i] = encodeFunc(P, k)
+		}(i, k)
+	}
+	wg.Wait()
+	for _, lm := range P.Spec.Lemmas {
+		res = append(res, lemmaEnc(P, lm))
+	}
+	return res
+}
+
+type checkResult struct {
+	prop       string
+	tier       string
+	verdicts   []*Verdict
+	encs       []*Enc
+	violations []string
+	known      []string
+	undecided  []string
+	wall       float64
+}
+
+func cmdCheck(args []string) {
+	fs := flag.NewFlagSet("check", flag.ExitOnError)
+	prop := fs.String("property", "", "property id")
+	tier := fs.String("tier", "quick", "quick|thorough")
+	writeBase := fs.Bool("write-baseline", false, "write the baseline file from this run (only on the unchanged tree)")
+	fs.Parse(args)
+	if *prop == "" {
+		fmt.Fprintln(os.Stderr, "govc check: --property required")
+		os.Exit(2)
+	}
+	if t := os.Getenv("VERIF_TIER"); t != "" && (t == "quick" || t == "thorough") {
+		*tier = t
+	}
+	seed := 0
+	if s := os.Getenv("VERIF_SEED"); s != "" {
+		seed, _ = strconv.Atoi(s)
+	}
+	t0 := time.Now()
+	P := mustLoad()
+	code := runCheck(P, *prop, *tier, seed, *writeBase, t0)
+	os.Exit(code)
+}
+
+func cmdBaseline(args []string) {
+	cmdCheck(append([]string{"--write-baseline"}, args...))
+}
+
+func runCheck(P *Prog, prop, tier string, seed int, writeBase bool, t0 time.Time) int {
+	timeout := 10
+	if tier == "thorough" {
+		timeout = 60
+	}
+	encs := encodeAll(P)
+	extra := extraChecks(P, prop) // non-SSA obligation generators (tables, walker types, ...)
+	encs = append(encs, extra...)
+	var jobs []job
+	var unsupported []string
+	funcsUnder := map[string]bool{}
+	for _, e := range encs {
+		if e.unsupported != "" {
+			if e.c != nil && contractMentions(e.c, prop) {
+				unsupported = append(unsupported, e.key+": "+e.unsupported)
+			}
+			continue
+		}
+		for _, o := range e.obls {
+			if hasProp(o.Props, prop) {
+				jobs = append(jobs, job{e, o})
+				if e.c != nil || e.fn == nil {
+					funcsUnder[e.key] = true
+				}
+			}
+		}
+	}
+	// deterministic order, rotated by the seed (verdicts do not depend on it)
+	sort.SliceStable(jobs, func(i, j int) bool { return jobs[i].o.Name < jobs[j].o.Name })
+	if seed != 0 && len(jobs) > 0 {
+		k := ((seed % len(jobs)) + len(jobs)) % len(jobs)
+		jobs = append(jobs[k:], jobs[:k]...)
+	}
+	vs := solveAll(jobs, timeout, 16)
+	if tier == "thorough" {
+		if msg := crossCheck(jobs, vs); msg != "" {
+			fmt.Println("ENGINE-ERROR: solver disagreement:", msg)
+			return 2
+		}
+	}
+	base := loadBaseline(prop)
+	known := loadKnown()
+	outDir := filepath.Join(verifDir, "out", "replay", prop)
+	os.MkdirAll(outDir, 0o755)
+
+	var violations, knownSeen, undecided []string
+	discharged := 0
+	byClass := map[string]int{}
+	byBackend := map[string]int{}
+	solverTime, maxTime := 0.0, 0.0
+	groupsNow := map[string]int{}
+	var names []string
+	for _, v := range vs {
+		byClass[v.Obl.Class]++
+		solverTime += v.Time
+		if v.Time > maxTime {
+			maxTime = v.Time
+		}
+		if v.Status == "discharged" {
+			discharged++
+			byBackend[v.Solver]++
+			groupsNow[v.Obl.Group()]++
+			names = append(names, v.Obl.Name)
+			continue
+		}
+		// not discharged
+		if kf := matchKnown(known, prop, v.Obl); kf != nil {
+			knownSeen = append(knownSeen, fmt.Sprintf("KNOWN-FINDING: property=%s %s %s", prop, v.Obl.Name, kf.What))
+			continue
+		}
+		inBase := false
+		if base != nil {
+			if _, ok := base.Groups[v.Obl.Group()]; ok {
+				inBase = true
+			}
+			for _, n := range base.Names {
+				if n == v.Obl.Name {
+					inBase = true
+				}
+			}
+		}
+		if base == nil || !inBase {
+			undecided = append(undecided, fmt.Sprintf("%s %s [%s] %s", strings.ToUpper(v.Status), v.Obl.Name, v.Obl.Pos, v.Obl.Desc))
+			continue
+		}
+		// a proved obligation now fails: violation
+		path := filepath.Join(outDir, sanitize(v.Obl.Name)+".json")
+		replayed := writeReplay(P, path, prop, v)
+		line := fmt.Sprintf("VIOLATION property=%s replay=%s", prop, path)
+		if !replayed {
+			line += " no-failing-input-found"
+		}
+		violations = append(violations, line+"\n  obligation "+v.Obl.Name+" ["+v.Obl.Pos+"] "+v.Obl.Desc+" ("+v.Status+")")
+	}
+	// proved groups that disappeared
+	if base != nil {
+		present := map[string]bool{}
+		for _, v := range vs {
+			present[v.Obl.Group()] = true
+		}
+		for _, g := range sortedKeys(base.Groups) {
+			if present[g] {
+				continue
+			}
+			cls := groupClass(g)
+			if cls == "nil" || cls == "idx" || cls == "assert" || cls == "div" || cls == "make" || cls == "panic" {
+				continue // safety obligations vanish with the code they guard
+			}
+			if kfGroup(known, prop, g) {
+				continue
+			}
+			path := filepath.Join(outDir, sanitize(g)+".missing.json")
+			reason := "obligation group no longer generated"
+			for _, u := range unsupported {
+				if strings.HasPrefix(g, strings.SplitN(u, ": ", 2)[0]+"/") {
+					reason = "function left the verifiable subset: " + u
+				}
+			}
+			data, _ := json.MarshalIndent(map[string]interface{}{"property": prop, "obligation_group": g, "status": "missing", "reason": reason}, "", " ")
+			os.WriteFile(path, data, 0o644)
+			violations = append(violations, fmt.Sprintf("VIOLATION property=%s replay=%s no-failing-input-found\n  proved obligation group %s is gone: %s", prop, path, g, reason))
+		}
+	}
+	for _, l := range knownSeen {
+		fmt.Println(l)
+	}
+	for _, l := range undecided {
+		fmt.Println("UNDECIDED (not in baseline, not a violation):", l)
+	}
+	for _, u := range unsupported {
+		fmt.Println("NOTE: outside the verifiable subset:", u)
+	}
+	for _, l := range violations {
+		fmt.Println(l)
+	}
+	wall := time.Since(t0).Seconds()
+	fmt.Printf("govc: property=%s tier=%s obligations=%d discharged=%d known=%d undecided=%d violations=%d solver_time=%.1fs wall=%.1fs\n",
+		prop, tier, len(vs), discharged, len(knownSeen), len(undecided), len(violations), solverTime, wall)
+
+	if writeBase {
+		b := Baseline{Property: prop, Groups: groupsNow, Names: names}
+		sort.Strings(b.Names)
+		for k := range funcsUnder {
+			b.Funcs = append(b.Funcs, k)
+		}
+		sort.Strings(b.Funcs)
+		os.MkdirAll(filepath.Join(verifDir, "baseline"), 0o755)
+		data, _ := json.MarshalIndent(&b, "", " ")
+		os.WriteFile(filepath.Join(verifDir, "baseline", prop+".json"), data, 0o644)
+		fmt.Println("govc: baseline written for", prop, "with", len(names), "obligations")
+	}
+	if len(vs) == 0 {
+		fmt.Println("ENGINE-ERROR: zero obligations for", prop)
+		return 2
+	}
+	if base != nil && !writeBase && discharged+len(knownSeen) < len(base.Names)*9/10 && len(violations) == 0 {
+		fmt.Printf("ENGINE-ERROR: vacuity guard: only %d obligations discharged, baseline has %d\n", discharged, len(base.Names))
+		return 2
+	}
+	writeEvidence(P, prop, tier, seed, vs, encs, discharged, byClass, byBackend, solverTime, maxTime, knownSeen, undecided, violations, unsupported, funcsUnder, wall)
+	if len(violations) > 0 {
+		return 1
+	}
+	return 0
+}
+
+func groupClass(g string) string {
+	parts := strings.Split(g, "/")
+	if len(parts) >= 2 {
+		return parts[len(parts)-2]
+	}
+	return ""
+}
+
+func contractMentions(c *Contract, prop string) bool {
+	if hasProp(c.Props, prop) {
+		return true
+	}
+	for _, cls := range [][]Clause{c.Requires, c.Ensures, c.EnsuresOnPanic} {
+		for _, cl := range cls {
+			if hasProp(cl.Props, prop) {
+				return true
+			}
+		}
+	}
+	return false
+}
+
+func matchKnown(known []KnownFinding, prop string, o *Obl) *KnownFinding {
+	for i := range known {
+		k := &known[i]
+		if k.Status != "known" {
+			continue
+		}
+		if k.Property != prop && k.Property != "*" {
+			continue
+		}
+		if k.Obligation == o.Name || k.Obligation == o.Group() {
+			return k
+		}
+	}
+	return nil
+}
+
+func kfGroup(known []KnownFinding, prop, g string) bool {
+	for _, k := range known {
+		if k.Status == "known" && (k.Property == prop || k.Property == "*") && (k.Obligation == g || strings.HasPrefix(k.Obligation, g+"#")) {
+			return true
+		}
+	}
+	return false
+}
+
+// crossCheck (thorough tier): every discharged, non-trivial obligation is re-run on the other solvers;
+// a "sat" answer from another solver is a disagreement.
+func crossCheck(jobs []job, vs []*Verdict) string {
+	type item struct {
+		i int
+	}
+	var mu sync.Mutex
+	msg := ""
+	var wg sync.WaitGroup
+	sem := make(chan struct{}, 8)
+	for i, v := range vs {
+		if v.Status != "discharged" || v.Trivial {
+			continue
+		}
+		wg.Add(1)
+		go func(i int, v *Verdict) {
+			defer wg.Done()
+			sem <- struct{}{}
+			defer func() { <-sem }()
+			wk := <-workerPool
+			defer func() { workerPool <- wk }()
+			for _, name := range []string{"z3-4.8.12", "cvc5-1.0.3"} {
+				if v.Solver == name {
+					continue
+				}
+				st := wk.runOne(name, v.SMT, 20)
+				if st == "sat" {
+					mu.Lock()
+					msg = fmt.Sprintf("%s: %s says unsat, %s says sat", v.Obl.Name, v.Solver, name)
+					mu.Unlock()
+				}
+			}
+		}(i, v)
+	}
+	wg.Wait()
+	return msg
+}
+
+func fileHash(path string) string {
+	data, err := os.ReadFile(path)
+	if err != nil {
+		return "missing"
+	}
+	h := sha256.Sum256(data)
+	return fmt.Sprintf("%x", h[:8])
+}
+
+func writeEvidence(P *Prog, prop, tier string, seed int, vs []*Verdict, encs []*Enc, discharged int, byClass, byBackend map[string]int,
+	solverTime, maxTime float64, knownSeen, undecided, violations, unsupported []string, funcsUnder map[string]bool, wall float64) {
+	var samples []map[string]string
+	for i, v := range vs {
+		if i%max(1, len(vs)/8) == 0 && len(samples) < 10 {
+			samples = append(samples, map[string]string{"obligation": v.Obl.Name, "clause": v.Obl.Desc, "at": v.Obl.Pos, "verdict": v.Status, "solver": v.Solver})
+		}
+	}
+	var funcs []string
+	for k := range funcsUnder {
+		funcs = append(funcs, k)
+	}
+	sort.Strings(funcs)
+	assume := map[string]bool{}
+	for _, e := range encs {
+		used := false
+		for _, o := range e.obls {
+			if hasProp(o.Props, prop) {
+				used = true
+				break
+			}
+		}
+		if !used {
+			continue
+		}
+		for _, w := range e.warnings {
+			if strings.HasPrefix(w, "assumption: ") {
+				assume[strings.TrimPrefix(w, "assumption: ")] = true
+			}
+		}
+	}
+	for _, p := range P.Spec.Pragmas {
+		assume["contract pragma: "+p] = true
+	}
+	var assumptions []string
+	for a := range assume {
+		assumptions = append(assumptions, a)
+	}
+	sort.Strings(assumptions)
+	assumptions = append(propAssumptions(prop), assumptions...)
+	trusted := []string{"go/ssa (golang.org/x/tools v0.29.0) construction of the IR from /repo's working tree", "govc SSA-to-SMT translation (this engine)", "z3 4.8.12, z3 5.1.0, cvc5 1.0.3", "Go toolchain go1.23.5"}
+	for _, f := range P.SpecFiles {
+		if strings.HasSuffix(f, ".spec") {
+			trusted = append(trusted, "trusted contracts "+filepath.Base(f)+" sha256:"+fileHash(f))
+		}
+	}
+	for k, r := range skipFuncs {
+		trusted = append(trusted, "not verified: "+k+" ("+r+")")
+	}
+	sort.Strings(trusted[4:])
+	level := "proof"
+	ev := map[string]interface{}{
+		"property_id": prop,
+		"tier":        tier,
+		"seed":        seed,
+		"level":       level,
+		"wall_s":      wall,
+		"violations":  len(violations),
+		"assumptions": assumptions,
+		"coverage": map[string]interface{}{
+			"obligations":              len(vs),
+			"discharged":               discharged,
+			"checker_cmd":              "z3-new -in (5.1.0, persistent) | /usr/bin/z3 -in -T:<t> (4.8.12) | cvc5 --lang=smt2 --tlimit=<t> (1.0.3); first definite answer per obligation",
+			"trusted_base":             trusted,
+			"functions_under_contract": funcs,
+			"by_class":                 byClass,
+			"by_backend":               byBackend,
+			"solver_time_s":            solverTime,
+			"solver_time_max_s":        maxTime,
+			"known_findings_seen":      knownSeen,
+			"undecided_new":            undecided,
+			"outside_subset":           unsupported,
+			"bounded":                  boundedNotes(prop),
+			"samples":                  samples,
+			"evaluations":              len(vs),
+			"distinct_nontrivial":      countNontrivial(vs),
+			"rule":                     "one case = one proof obligation generated from the SSA of /repo's working tree (or from its constant tables / type declarations); non-trivial = needed a solver call (not syntactically true)",
+		},
+	}
+	os.MkdirAll(filepath.Join(verifDir, "evidence"), 0o755)
+	data, _ := json.MarshalIndent(ev, "", " ")
+	os.WriteFile(filepath.Join(verifDir, "evidence", prop+".json"), data, 0o644)
+}
+
+func countNontrivial(vs []*Verdict) int {
+	seen := map[string]bool{}
+	for _, v := range vs {
+		if !v.Trivial {
+			seen[v.Obl.Name] = true
+		}
+	}
+	return len(seen)
+}
+
+func max(a, b int) int {
+	if a > b {
+		return a
+	}
+	return b
+}
+
+// writeReplay writes the replay file of a violated obligation and tries to reproduce it on the real code.
+func writeReplay(P *Prog, path, prop string, v *Verdict) bool {
+	rep := map[string]interface{}{
+		"property":   prop,
+		"obligation": v.Obl.Name,
+		"class":      v.Obl.Class,
+		"clause":     v.Obl.Desc,
+		"at":         v.Obl.Pos,
+		"function":   v.Obl.Func,
+		"verdict":    v.Status,
+		"solver":     v.Solver,
+		"solver_output": truncate(v.Raw, 20000),
+	}
+	smtPath := strings.TrimSuffix(path, ".json") + ".smt2"
+	os.WriteFile(smtPath, []byte(v.SMT), 0o644)
+	rep["smt_file"] = smtPath
+	ok := false
+	if v.Status == "refuted" {
+		ok = tryReplay(P, v, rep)
+	}
+	rep["replayed_on_real_code"] = ok
+	data, _ := json.MarshalIndent(rep, "", " ")
+	os.WriteFile(path, data, 0o644)
+	return ok
+}
+
+func truncate(s string, n int) string {
+	if len(s) > n {
+		return s[:n] + "...[truncated]"
+	}
+	return s
+}
+
+func cmdReplay(args []string) {
+	if len(args) < 1 {
+		fmt.Fprintln(os.Stderr, "usage: govc replay <file>")
+		os.Exit(2)
+	}
+	data, err := os.ReadFile(args[0])
+	if err != nil {
+		fmt.Fprintln(os.Stderr, err)
+		os.Exit(2)
+	}
+	fmt.Println(string(data))
+	var rep map[string]interface{}
+	json.Unmarshal(data, &rep)
+	if t, ok := rep["replay_test"].(string); ok && t != "" {
+		out, pass := runReplayTest(rep["replay_pkg"].(string), t)
+		fmt.Println(out)
+		if !pass {
+			os.Exit(1)
+		}
+	}
+}
